@@ -449,6 +449,13 @@ def build(spec):
         c.condmat = A[np.ix_(free, free)]
     else:
         raise ValueError(st)
+    # the same system in other units (exact power-of-two factor on the matrix): classification, solver choice and every
+    # tolerance inside the library must be relative
+    ue = spec.get("units", int(rng.choice([0, 0, 0, -40, -27, 30])) if st in ("linsolve", "inverse", "staticcond") else 0)
+    if ue:
+        c.A = c.A * 2.0 ** ue
+        c.condmat = c.condmat * 2.0 ** ue
+        c.name += f".units2^{ue}"
     with np.errstate(all="ignore"):
         try:
             c.cond = float(np.linalg.cond(c.condmat)) if c.condmat.size else 1.0
@@ -475,8 +482,9 @@ def run_impl(c):
             kw = {}
             if c.solver is not None:
                 kw["solver"] = make_solver(c.solver)
-            herm = bool(np.allclose(c.A, c.A.conj().T))
-            symm = bool(np.allclose(c.A, c.A.T))
+            at = 1e-12 * float(np.abs(c.A).max())   # (relative to the matrix: the flags must be truthful in any units)
+            herm = bool(np.allclose(c.A, c.A.conj().T, rtol=0.0, atol=at))
+            symm = bool(np.allclose(c.A, c.A.T, rtol=0.0, atol=at))
             # truthful user flags (they only save the detection)
             if c.flagmode in ("hermitian", "both"):
                 kw["hermitian"] = herm
